@@ -392,13 +392,15 @@ impl PartitionStorage for FilePartitionStorage {
                     )
                 })
                 .map_err(|_| IggyError::CannotReadFile)?;
-            let offset = file
-                .read_u64_le()
-                .await
-                .with_error_context(|error| {
-                    format!("{COMPONENT} (error: {error}) - failed to read consumer offset from file, path: {path}")
-                })
-                .map_err(|_| IggyError::CannotReadFile)?;
+            let offset = match file.read_u64_le().await {
+                Ok(offset) => offset,
+                Err(error) => {
+                    // A crash while an offset was being stored leaves a file shorter than 8 bytes:
+                    // there is no value to recover, and it must not make the partition unloadable.
+                    error!("Cannot read consumer offset from file: {path}, ignoring it. {error}");
+                    continue;
+                }
+            };
 
             consumer_offsets.push(ConsumerOffset {
                 kind,
